@@ -112,6 +112,21 @@ func (f FS) Fold(v structform.ExtVisitor) error {
 	return v.OnString("fs" + strconv.Itoa(int(f)))
 }
 
+// FInts / FMap: Folder (value receiver) on a named SLICE / MAP over built-in element types.
+// These have a built-in conversion fast path as well (named-type conversion), which must not
+// win over the Folder method, however the value is reached.
+type FInts []int
+
+func (f FInts) Fold(v structform.ExtVisitor) error {
+	return v.OnString("fi" + strconv.Itoa(len(f)))
+}
+
+type FMap map[string]int
+
+func (f FMap) Fold(v structform.ExtVisitor) error {
+	return v.OnInt(len(f))
+}
+
 // FOpen: Folder (value receiver) whose output is an object that is never closed
 // (misbehaving user code; only meaningful to exercise "missing object close").
 type FOpen struct{ A int }
@@ -332,6 +347,7 @@ type MenagerieEntry struct {
 
 var Menagerie = []MenagerieEntry{
 	{"FV", reflect.TypeOf(FV{})}, {"FP", reflect.TypeOf(FP{})}, {"FS", reflect.TypeOf(FS(0))},
+	{"FInts", reflect.TypeOf(FInts(nil))}, {"FMap", reflect.TypeOf(FMap(nil))},
 	{"FOpen", reflect.TypeOf(FOpen{})},
 	{"ZV", reflect.TypeOf(ZV{})}, {"ZP", reflect.TypeOf(ZP{})}, {"ZInt", reflect.TypeOf(ZInt(0))},
 	{"ZStr", reflect.TypeOf(ZStr(""))}, {"TimeLike", reflect.TypeOf(TimeLike{})},
